@@ -638,8 +638,8 @@ def min_real(ck: Check) -> None:
 def streams(ck: Check) -> None:
     ann_streams(ck)
     ann_float(ck)
-    min_exact(ck)
     min_real(ck)
+    min_exact(ck)
 
 
 def check(ck: Check) -> None:
